@@ -4,10 +4,10 @@ CONSTANTS
     Kinds = {"int", "float", "str", "none"}
     Values = {2}
     Cfgs <- MCAllDefault
-    Modes = {"batch", "stream"}
-    MaxBatches = 3
-    MaxPts = 2
-    MaxStream = 4
+    Modes = {"batch"}
+    MaxBatches = 5
+    MaxPts = 3
+    MaxStream = 0
     BuggyCache = FALSE
 INVARIANTS
     TypeOK
